@@ -517,6 +517,8 @@ def builtin_call(engine, st, name, node):
         if isinstance(a, (ast.GeneratorExp, ast.ListComp)):
             return quantified(engine, st, a, name)
         raise Unsupported(f"{name} of non-generator")
+    if name == "sum" and isinstance(node.args[0], (ast.GeneratorExp, ast.ListComp)) and len(node.args) == 1:
+        return sum_fold(engine, st, node.args[0])
     if name == "sum":
         a = node.args[0]
         v = engine.deref(st, engine.eval(st, a)) if not isinstance(a, (ast.GeneratorExp, ast.ListComp)) else None
@@ -535,6 +537,49 @@ def builtin_call(engine, st, name, node):
     if name == "next":
         raise Unsupported("next()")
     return None
+
+
+def sum_fold(engine, st, gen):
+    """sum(<elt> for x in <sequence>) as a left fold: an uninterpreted function
+    of the prefix length with its two defining axioms.  The function symbol is
+    keyed by the element term, so the same sum written in a contract denotes
+    the same function."""
+    from .loops import describe_iter, PosIter, Unroll
+
+    if len(gen.generators) != 1 or gen.generators[0].ifs:
+        raise Unsupported("sum over filtered/nested generator")
+    g = gen.generators[0]
+    it, _ = describe_iter(engine, st, g.iter)
+    old = dict(engine.bound)
+    try:
+        if isinstance(it, Unroll):
+            r = z3.IntVal(0)
+            for v in it.values:
+                bind_comp_target(engine, g.target, v)
+                r = r + engine.num(engine.eval(st, gen.elt))
+            return V(Int, [r])
+        if not isinstance(it, PosIter):
+            raise Unsupported("sum over unordered container")
+        q = z3.Int("sum!q")
+        bind_comp_target(engine, g.target, it.elem(q))
+        om = engine.spec_mode
+        engine.spec_mode = True  # element must be a pure term
+        try:
+            e = engine.num(engine.eval(st, gen.elt))
+        finally:
+            engine.spec_mode = om
+    finally:
+        engine.bound = old
+    folds = engine.__dict__.setdefault("_sum_folds", {})
+    key = e.get_id()
+    if key not in folds:
+        f = z3.Function(f"sumfold!{len(folds)}", Ty.IntS, e.sort())
+        t = z3.Int("sum!t")
+        arr = z3.Lambda([q], e)
+        engine.axioms.append(f(0) == 0)
+        engine.axioms.append(z3.ForAll([t], z3.Implies(t > 0, f(t) == f(t - 1) + arr[t - 1]), patterns=[f(t)]))
+        folds[key] = f
+    return V(Int if e.sort() == Ty.IntS else Real, [folds[key](it.length)])
 
 
 def list_from_values(engine, st, vals):
